@@ -15,6 +15,7 @@ import time
 
 import numpy as np
 from scipy.optimize import newton
+from scipy.linalg import solve_triangular
 
 # from scipy.sparse import csc_matrix
 # import scipy.sparse.linalg as splinalg
@@ -588,6 +589,26 @@ class lsrk4(LSrkmodelHH):
 # --------------------------------------------------------------------
 
 
+def _linsolve(mat, rhs):
+    """dense linear solve: LU with partial pivoting (np.linalg.solve), checked by its residual.
+    The element growth of LU can be exponential in the size for the band matrices of upwind-biased
+    stencils (4-point schemes, flow towards decreasing indices, CFL of order 10): the result is then
+    meaningless (or a spurious "Singular matrix") although the system is well conditioned;
+    a QR factorization is used in that case"""
+    if not (np.all(np.isfinite(mat)) and np.all(np.isfinite(rhs))):
+        return np.linalg.solve(mat, rhs) # nothing to check
+    try:
+        x = np.linalg.solve(mat, rhs)
+        res = np.linalg.norm(mat @ x - rhs, np.inf)
+        ok = res <= 1e-10 * (np.linalg.norm(mat, np.inf) * np.linalg.norm(x, np.inf) + np.linalg.norm(rhs, np.inf))
+    except np.linalg.LinAlgError:
+        ok = False
+    if not ok:
+        q, r = np.linalg.qr(mat)
+        x = solve_triangular(r, q.T @ rhs)
+    return x
+
+
 class implicitmodel(timemodel):
     """generic class for implicit models
     needs specific implementation of step method for derived classes
@@ -655,13 +676,13 @@ class implicitmodel(timemodel):
         self.jacobian_use = 0
         return self.jacobian
 
-    def solve_implicit(self, field, dtloc, invertion=np.linalg.solve, theta=1.0, xi=0):
+    def solve_implicit(self, field, dtloc, invertion=_linsolve, theta=1.0, xi=0):
         """
 
         Args:
           field:
           dtloc:
-          invertion:  (Default value = np.linalg.solve)
+          invertion:  (Default value = _linsolve)
           theta:  (Default value = 1.)
           xi:  (Default value = 0)
 
